@@ -1353,6 +1353,26 @@ def _dotted_name(e):
     return isinstance(e, ast.Name)
 
 
+def merge_split_chain(tree):
+    """``x = E`` (E a call) directly followed by ``S[k] = x`` (S, k plain names) is the chained
+    assignment ``x = S[k] = E`` written in two statements: same evaluation and binding order"""
+    for fn in [n for n in ast.walk(tree) if isinstance(n, (ast.FunctionDef, ast.AsyncFunctionDef))]:
+        for blk, _owner in list(_fn_blocks(fn)):
+            i = 0
+            while i + 1 < len(blk):
+                a, b = blk[i], blk[i + 1]
+                if isinstance(a, ast.Assign) and len(a.targets) == 1 and isinstance(a.targets[0], ast.Name) and \
+                        isinstance(a.value, ast.Call) and isinstance(b, ast.Assign) and len(b.targets) == 1 and \
+                        isinstance(b.value, ast.Name) and b.value.id == a.targets[0].id and \
+                        isinstance(b.targets[0], ast.Subscript) and isinstance(b.targets[0].value, ast.Name) and \
+                        isinstance(b.targets[0].slice, ast.Name) and \
+                        b.targets[0].value.id != a.targets[0].id and b.targets[0].slice.id != a.targets[0].id:
+                    a.targets.append(b.targets[0])
+                    del blk[i + 1]
+                    continue
+                i += 1
+
+
 def forward_adjacent_temp(tree):
     """``x = E`` directly followed by ``T = x`` (T any target) where x is a plain local with no other
     use at all: ``T = E``."""
@@ -1476,6 +1496,7 @@ def canonicalise(tree, modname, log=None):
     unzip_pairs(tree)
     loops_to_comprehensions(tree)
     forward_adjacent_temp(tree)
+    merge_split_chain(tree)
     countdown_loops(tree)
     flag_loops(tree)
     index_walk_to_queue(tree)
